@@ -134,8 +134,8 @@ static const char* err_name(edn_error_t e) {
 
 /* ---- built-in tag handlers; every invocation is logged ---- */
 #define MAXCALLS 4096
-static struct { int h; size_t at; } g_calls[MAXCALLS];
-static int g_ncalls = 0;
+static __thread struct { int h; size_t at; } g_calls[MAXCALLS];
+static __thread int g_ncalls = 0;
 static void log_call(int h, edn_value_t* v) {
     size_t rs = 0, re = 0; edn_source_position(v, &rs, &re);
     if (g_ncalls < MAXCALLS) { g_calls[g_ncalls].h = h; g_calls[g_ncalls].at = rs; }
@@ -209,7 +209,114 @@ static void print_result(edn_result_t r, const char* input, size_t n, edn_parse_
     printf("\n");
 }
 
+#include <pthread.h>
+static int g_small_stack = 0;   /* run each document read on a thread with a 1 MiB stack */
+
+typedef struct { const char* p; size_t len; edn_parse_options_t* opt; edn_result_t r; } read_job_t;
+static void* read_job(void* arg) {
+    read_job_t* j = (read_job_t*) arg;
+    j->r = edn_read_with_options(j->p, j->len, j->opt);
+    return NULL;
+}
+static edn_result_t read_maybe_small_stack(const char* p, size_t len, edn_parse_options_t* opt) {
+    if (!g_small_stack) return edn_read_with_options(p, len, opt);
+    read_job_t j = {p, len, opt, {0}};
+    pthread_attr_t at;
+    pthread_attr_init(&at);
+    pthread_attr_setstacksize(&at, 1 << 20);
+    pthread_t th;
+    pthread_create(&th, &at, read_job, &j);
+    pthread_join(th, NULL);
+    pthread_attr_destroy(&at);
+    return j.r;
+}
+
+/* threads: N readers of the same document (shared read-only registry); all dumps must agree */
+typedef struct { const char* p; size_t len; edn_parse_options_t* opt; char* out; size_t outlen; } th_job_t;
+static pthread_mutex_t g_print_mu = PTHREAD_MUTEX_INITIALIZER;
+static void* th_job(void* arg) {
+    th_job_t* j = (th_job_t*) arg;
+    for (int rep = 0; rep < 3; rep++) {
+        edn_result_t r = edn_read_with_options(j->p, j->len, j->opt);
+        /* serialise only the printing (dump uses stdout redirection) */
+        pthread_mutex_lock(&g_print_mu);
+        char* mem = NULL; size_t len = 0;
+        FILE* save = stdout; FILE* ms = open_memstream(&mem, &len);
+        stdout = ms;
+        if (r.value) dump_value(r.value); else printf("ERR %s %zu %zu", err_name(r.error), r.error_start.offset, r.error_end.offset);
+        fflush(ms); stdout = save; fclose(ms);
+        pthread_mutex_unlock(&g_print_mu);
+        if (rep == 0) { j->out = mem; j->outlen = len; }
+        else { if (len != j->outlen || memcmp(mem, j->out, len)) j->outlen = (size_t) -1; free(mem); }
+        if (r.value) edn_free(r.value);
+    }
+    return NULL;
+}
+
 static int h_dump_command(const char* cmd, int nt, char** tok) {
+    if (!strcmp(cmd, "threads") && nt == 4) {
+        int n = atoi(tok[1]);
+        buf_t b = buf_from_hex(tok[2]);
+        edn_reader_registry_t* reg = registry_from_spec(tok[3]);
+        edn_parse_options_t opt; memset(&opt, 0, sizeof opt); opt.reader_registry = reg;
+        th_job_t jobs[64]; pthread_t th[64];
+        if (n > 64) n = 64;
+        for (int i = 0; i < n; i++) { jobs[i].p = b.p; jobs[i].len = b.n; jobs[i].opt = &opt; jobs[i].out = NULL; jobs[i].outlen = 0;
+                                      pthread_create(&th[i], NULL, th_job, &jobs[i]); }
+        int same = 1;
+        for (int i = 0; i < n; i++) pthread_join(th[i], NULL);
+        for (int i = 0; i < n; i++) {
+            if (jobs[i].outlen == (size_t) -1 || jobs[i].outlen != jobs[0].outlen || memcmp(jobs[i].out, jobs[0].out, jobs[0].outlen)) same = 0;
+        }
+        printf("%s ", same ? "SAME" : "DIFFERENT");
+        fwrite(jobs[0].out, 1, jobs[0].outlen == (size_t) -1 ? 0 : jobs[0].outlen, stdout);
+        printf("\n");
+        for (int i = 0; i < n; i++) free(jobs[i].out);
+        if (reg) edn_reader_registry_destroy(reg);
+        buf_free(&b);
+        return 1;
+    }
+    if (!strcmp(cmd, "freenull") && nt == 1) { edn_free(NULL); printf("ok\n"); return 1; }
+#ifdef VERIF_FAILINJECT
+    if ((!strcmp(cmd, "failcount") || !strcmp(cmd, "failat") || !strcmp(cmd, "failfrom")) && nt >= 2) {
+        /* failcount <hex> <opts...> : number of allocation requests of a normal run
+           failat K <hex> / failfrom K <hex> : run with request K (or all from K) failing, then
+           exercise the lazy accessors under the same schedule */
+        int isc = !strcmp(cmd, "failcount");
+        long k = isc ? -1 : atol(tok[1]);
+        buf_t b = buf_from_hex(tok[isc ? 1 : 2]);
+        g_alloc_no = 0; g_fail_one = -1; g_fail_from = -1;
+        if (!strcmp(cmd, "failat")) g_fail_one = k;
+        if (!strcmp(cmd, "failfrom")) g_fail_from = k;
+        g_fail_armed = 1;
+        edn_result_t r = b.n ? edn_read(b.p, b.n) : edn_read("", 0);
+        if (isc) { g_fail_armed = 0; printf("%ld ", g_alloc_no); }
+        g_ncalls = 0;
+        /* the dump calls the lazy accessors (string get, bigint get) under the same schedule */
+        if (r.value && r.error == EDN_OK) { printf("OK "); dump_value(r.value); printf("\n"); }
+        else if (!r.value && r.error != EDN_OK) printf("ERR %s %s\n", err_name(r.error), r.error_message ? "msg" : "nomsg");
+        else printf("%s\n", r.value ? "BOTH" : "NEITHER");
+        g_fail_armed = 0;
+        if (r.value) edn_free(r.value);
+        buf_free(&b);
+        return 1;
+    }
+#endif
+    if (!strcmp(cmd, "docreg") && nt == 5) {
+        /* like doc, but the registry is destroyed BEFORE the value is inspected */
+        buf_t b = buf_from_hex(tok[1]);
+        edn_reader_registry_t* reg = registry_from_spec(tok[2]);
+        edn_parse_options_t opt; memset(&opt, 0, sizeof opt);
+        opt.reader_registry = reg; opt.default_reader_mode = (edn_default_reader_mode_t) atoi(tok[3]);
+        opt.eof_value = atoi(tok[4]) ? &g_eof_marker : NULL;
+        g_ncalls = 0;
+        edn_result_t r = b.n ? edn_read_with_options(b.p, b.n, &opt) : edn_read_with_options("", 0, &opt);
+        if (reg) edn_reader_registry_destroy(reg);
+        print_result(r, b.p, b.n, &opt);
+        if (r.value && r.value != &g_eof_marker) edn_free(r.value);
+        buf_free(&b);
+        return 1;
+    }
     if (!strcmp(cmd, "doc") && (nt == 5 || nt == 6)) {
         buf_t b = buf_from_hex(tok[1]);
         edn_reader_registry_t* reg = registry_from_spec(tok[2]);
@@ -227,7 +334,7 @@ static int h_dump_command(const char* cmd, int nt, char** tok) {
         } else {
             /* optional 6th token: explicit length shorter than the buffer (bytes follow) */
             size_t len = (nt == 6) ? (size_t) strtoull(tok[5], 0, 10) : b.n;
-            r = edn_read_with_options(b.p, len, &opt);
+            r = read_maybe_small_stack(b.p, len, &opt);
         }
         print_result(r, b.p, b.n, &opt);
         if (r.value && r.value != &g_eof_marker) edn_free(r.value);
